@@ -369,6 +369,10 @@ def specRootStep (cx : Ctx) (line : String) : Option SExp :=
     | "default", [] => pure (okState 0 0 [])
     | "into_vec", [] | "into_box", [] => pure (okState 0 0 [] (some [fmtList data]))
     | "into_iter", [k] => do let k ← nat k; pure (okState 0 0 [] (some [fmtList (data.take k)]))
+    | "clone_from", [c, r, l] => do
+      -- C20: afterwards the array equals the source (which the protocol guarantees to be a valid array)
+      let c ← nat c; let r ← nat r; let l ← parseList l
+      pure (okState c r (l.map v) (some ["eq=1"]))
     | "clone", [] => pure (okState C R data (some [toString C, toString R, fmtList data, "eq=1", "hasheq=1", "indep=1"]))
     | "clear", [] => pure (okState 0 0 [])
     | "swap_dimensions", [] => pure (okState R C data)
